@@ -254,7 +254,15 @@ impl<B> Flow<B, SendRequest> {
     pub fn write(&mut self, output: &mut [u8]) -> Result<usize, Error> {
         match &mut self.inner.call {
             CallHolder::WithoutBody(v) => v.write(output),
-            CallHolder::WithBody(v) => v.write(&[], output).map(|r| r.1),
+            CallHolder::WithBody(v) => {
+                // The body is written in the SendBody state. An empty input there means
+                // "end of body", so once the request head is written we must not
+                // forward the call any more.
+                if v.is_body() {
+                    return Ok(0);
+                }
+                v.write(&[], output).map(|r| r.1)
+            }
             _ => unreachable!(),
         }
     }
